@@ -5,6 +5,7 @@ import (
 	"fmt"
 	"os"
 	"sort"
+	"strconv"
 	"strings"
 	"sync"
 	"sync/atomic"
@@ -140,6 +141,7 @@ func runC14(rc *RunCtx, i int) {
 	var rowMu sync.Mutex
 	rr := r.Split("rows")
 	var flushes atomic.Int64
+	maxFlushes := int64(r.Range(40, 120))
 	for wi := 0; wi < writers; wi++ {
 		wg.Add(1)
 		go func() {
@@ -149,6 +151,13 @@ func runC14(rc *RunCtx, i int) {
 				case <-stop:
 					return
 				default:
+				}
+				// the data set stops growing after a while (queries scan every file: an
+				// ever-growing store makes each query slower, which keeps the writers going
+				// longer still); from then on the merger and the queries run over a stable row set
+				if flushes.Load() >= maxFlushes {
+					time.Sleep(2 * time.Millisecond)
+					continue
 				}
 				rowMu.Lock()
 				rows, recs := makeBatch(rr, w, "normal")
@@ -355,41 +364,99 @@ func runC14(rc *RunCtx, i int) {
 // ---------- porcupine: MemoryMetaStore.Update vs snapshot iteration ----------
 
 type pcInput struct {
+	Base    int // > 0: the initial population of that many base pointers (listed in no other field)
 	Update  bool
 	Writes  []string
 	Deletes []string
 }
 
-func setString(m map[string]bool) string {
-	ks := make([]string, 0, len(m))
-	for k := range m {
-		ks = append(ks, k)
+// setString is the canonical form of a pointer set. Base pointers ("b0000" .. "b<n-1>") are the
+// bulk of a large store and almost all of them stay: the form lists only which of them are
+// missing, plus every other pointer, so that model states stay small however many files the
+// store holds ("<n>|missing base indices|other pointers").
+func setString(m map[string]bool) string { return setStringN(m, pcBaseN.Load()) }
+
+var pcBaseN atomic.Int64 // base population of the history being checked (one history at a time per process)
+
+func setStringN(m map[string]bool, n int64) string {
+	var missing, other []string
+	for k := int64(0); k < n; k++ {
+		if p := fmt.Sprintf("b%04d", k); !m[p] {
+			missing = append(missing, p[1:])
+		}
 	}
-	sort.Strings(ks)
-	return strings.Join(ks, ",")
+	for k := range m {
+		if len(k) == 5 && k[0] == 'b' {
+			if idx, err := strconv.ParseInt(k[1:], 10, 64); err == nil && idx < n {
+				continue
+			}
+		}
+		other = append(other, k)
+	}
+	sort.Strings(other)
+	return fmt.Sprintf("%d|%s|%s", n, strings.Join(missing, ","), strings.Join(other, ","))
 }
 
 var pcModel = porcupine.Model{
-	Init: func() any { return "" },
+	Init: func() any { return setStringN(map[string]bool{}, 0) },
 	Step: func(state, input, output any) (bool, any) {
 		in := input.(pcInput)
 		st := state.(string)
 		if !in.Update {
 			return output.(string) == st, st
 		}
-		m := map[string]bool{}
-		if st != "" {
-			for _, k := range strings.Split(st, ",") {
-				m[k] = true
+		// apply the update on the compact form directly
+		parts := strings.SplitN(st, "|", 3)
+		n, _ := strconv.ParseInt(parts[0], 10, 64)
+		if in.Base > 0 {
+			// the initial population: every base pointer present
+			return true, fmt.Sprintf("%d||%s", in.Base, parts[2])
+		}
+		miss := map[string]bool{}
+		if parts[1] != "" {
+			for _, k := range strings.Split(parts[1], ",") {
+				miss[k] = true
 			}
 		}
+		other := map[string]bool{}
+		if parts[2] != "" {
+			for _, k := range strings.Split(parts[2], ",") {
+				other[k] = true
+			}
+		}
+		isBase := func(k string) (string, bool) {
+			if len(k) == 5 && k[0] == 'b' {
+				if idx, err := strconv.ParseInt(k[1:], 10, 64); err == nil && idx < n {
+					return k[1:], true
+				}
+			}
+			return "", false
+		}
 		for _, k := range in.Writes {
-			m[k] = true
+			if idx, ok := isBase(k); ok {
+				delete(miss, idx)
+			} else {
+				other[k] = true
+			}
 		}
 		for _, k := range in.Deletes {
-			delete(m, k)
+			if idx, ok := isBase(k); ok {
+				miss[idx] = true
+			} else {
+				delete(other, k)
+			}
 		}
-		return true, setString(m)
+		ms := make([]string, 0, len(miss))
+		for k := range miss {
+			ms = append(ms, k)
+		}
+		sort.Strings(ms)
+		os := make([]string, 0, len(other))
+		for k := range other {
+			os = append(os, k)
+		}
+		sort.Strings(os)
+		return true, fmt.Sprintf("%d|%s|%s", n, strings.Join(ms, ","), strings.Join(os, ","))
 	},
 	Equal: func(a, b any) bool { return a.(string) == b.(string) },
 	DescribeOperation: func(input, output any) string {
@@ -422,12 +489,12 @@ func runC14Porcupine(rc *RunCtx, i int) {
 		// size a store might iterate in); each client owns a slice of them to delete later
 		base := core.Pick(r, []int{0, 0, 30, 300, 700})
 		owned := make([][]string, clients)
+		pcBaseN.Store(int64(base))
 		if base > 0 {
-			in := pcInput{Update: true}
+			in := pcInput{Update: true, Base: base}
 			var ws []bs.WriteOperation
 			for k := 0; k < base; k++ {
 				p := fmt.Sprintf("b%04d", k)
-				in.Writes = append(in.Writes, p)
 				ws = append(ws, bs.WriteOperation{FileMetadata: &bs.FileMetadata{}, FilePointerBytes: []byte(p)})
 				owned[k%clients] = append(owned[k%clients], p)
 			}
